@@ -881,6 +881,13 @@ class Interp:
                 return o.name
         if isinstance(o, BoundMethod):
             return self.getattr(o.fn, name)
+        if isinstance(o, PropertyObj):
+            if name == "setter":
+                return Builtin("property.setter", lambda f: PropertyObj(o.fget, f))
+            if name == "getter":
+                return Builtin("property.getter", lambda f: PropertyObj(f, o.fset))
+            if name == "fget":
+                return o.fget
         from . import pystubs
         return pystubs.builtin_getattr(self, o, name)
 
